@@ -435,6 +435,9 @@ func (x *c08TX) ticketTotal(in []byte) string {
 		x.viol("C08|ticket|nil-parameters-without-error", "", trace)
 		return "bad"
 	}
+	if rev, _, rerr := quicvarint.Parse(in); rerr != nil || rev != sessionTicketRevision {
+		x.viol("C08|ticket|out-of-range-accepted|revision", fmt.Sprintf("a ticket of revision %d (err %v) was accepted, this build writes revision %d", rev, rerr, sessionTicketRevision), trace)
+	}
 	p := st.Parameters
 	if uint64(p.MaxBidiStreamNum) > 1<<60 || uint64(p.MaxUniStreamNum) > 1<<60 || p.ActiveConnectionIDLimit < 2 {
 		x.viol("C08|ticket|out-of-range-accepted", p.String(), trace)
